@@ -370,7 +370,7 @@ func (in *Interp) confirmModel(maxLen uint64) (map[string]interface{}, bool) {
 	}
 	in.flush()
 	// prefer short strings: huge lengths make the solver materialise huge sequences
-	for _, bound := range []uint64{8, 300, 70000} {
+	for _, bound := range []uint64{8, 300, 5000, 70000} {
 		if bound > maxLen {
 			break
 		}
